@@ -675,7 +675,7 @@ def tl_table(case, c):
 
 
 def model_concrete(case, c, mode, bl=None):
-    """-> [(array | 'raise', [look-up per entry])] for io and ic"""
+    """-> [(array | 'raise', [look-up per entry], wf)] for io and ic; wf = NNet.wf of the dump as the driver evaluates it"""
     from . import circ
     if bl is None: bl = enc_blocks(case['blocks'])
     tail = f"{bl} {tl_table(case, c)} {circ.dump_names(c) or '~'} {circ.dump_net(c)}"
@@ -683,7 +683,7 @@ def model_concrete(case, c, mode, bl=None):
     L, res = len(c.lines), []
     for o in out:
         f = o.split(' ')
-        if len(f) != 2: raise ValueError(f'sdfc answered {o[:200]!r}')
+        if len(f) != 3 or f[2] not in ('wf:0', 'wf:1'): raise ValueError(f'sdfc answered {o[:200]!r}')
         if f[0] == 'raise': a = 'raise'
         else:
             a = np.zeros((3, L, 2, 2))
@@ -692,7 +692,7 @@ def model_concrete(case, c, mode, bl=None):
                     k, v = item.split('=')
                     d, l, ip, op = map(int, k.split('.'))
                     a[d, l, ip, op] = int(v) / 1000.0
-        res.append((a, [] if f[1] == '~' else None if f[1] == '-' else f[1].split(',')))
+        res.append((a, [] if f[1] == '~' else None if f[1] == '-' else f[1].split(','), f[2] == 'wf:1'))
     return res
 
 
@@ -780,10 +780,15 @@ def exits_corr(ck, case, c, mode):
 
 def concrete_corr(ck, case, c, mode, io, ic):
     try:
-        (mio, lio), (mic, lic) = model_concrete(case, c, mode)
+        (mio, lio, wf1), (mic, lic, wf2) = model_concrete(case, c, mode)
         rio, ric = real_looks(case, c)
     except Exception as ex:
         ck.broken_tie('SDF look-up correspondence (Model/SdfCirc.lean)', f'{type(ex).__name__}: {ex}'[:300], inp=case); return
+    # hypothesis `C.wf = true` of pin_lookup_spec / interconnect_lookup_* / iopath_lands_circuit, on the dump of the parsed circuit
+    ck.hist['c14-hyp:sdfc-wf:' + ('inside' if wf1 and wf2 else 'OUTSIDE')] += 1
+    if not (wf1 and wf2):
+        ck.broken_tie('hypothesis NNet.wf of the look-up theorems (Props/C14.lean, section circuit) on a circuit built by verilog.parse',
+                      f'driver sdfc: wf = {wf1}/{wf2} (branchforks={case.get("bf")})', inp=case)
     for which, r, m in (('iopaths', io, mio), ('interconnects', ic, mic)):
         if not same(r, m):
             ck.broken_tie(f'SDF model with concrete look-ups ({which}, start mode {mode})',
